@@ -10,6 +10,7 @@
 //              handler invocations = number of "*** ERROR: In line <n>" reports on stderr, error line = <n>, output = its stdout.
 #include "common.h"
 #include "rec.h"
+#include "reuse.h" // modes 0-2: every other case (hash of the case) reads with a reader OBJECT that has read an incremental primer text before
 #include <potassco/aspif.h>
 #include <potassco/aspif_text.h>
 #include <potassco/smodels.h>
@@ -69,6 +70,7 @@ int main() {
 	Case c; Obs o;
 	{ std::istringstream warm("asp 1 0 0\n0\n"); Obs r0; Recorder r(r0); Potassco::readAspif(warm, r, &onError); }
 	while (readCase(c)) {
+		const bool primed = reuse::primed(c);
 		ll mode = c.next(), opts = c.next(); size_t len = (size_t)c.next();
 		std::string in = c.bytes(len);
 		g_errs = 0; g_line = 0;
@@ -80,7 +82,13 @@ int main() {
 			std::istringstream is(in);
 			Recorder r(rec);
 			int rc = 0;
-			if      (mode == 0) { rc = Potassco::readAspif(is, r, &onError); }
+			if (primed && mode >= 0 && mode <= 2) { // reader reuse: the primer's calls are dropped, then the case's text is read exactly like readAspif/readSmodels/readProgram do
+				std::istringstream pr(mode == 0 ? reuse::ASPIF_PRIMER : mode == 2 ? reuse::TEXT_PRIMER : (opts & 1) ? reuse::SMODELS_PRIMER_EXT : reuse::SMODELS_PRIMER);
+				if      (mode == 0) { Potassco::AspifInput rd(r);              reuse::prime(rd, pr); rec.s.clear(); rc = Potassco::readProgram(is, rd, &onError); }
+				else if (mode == 1) { Potassco::SmodelsInput rd(r, smOpts(opts)); reuse::prime(rd, pr); rec.s.clear(); rc = Potassco::readProgram(is, rd, &onError); }
+				else                { Potassco::AspifTextInput rd(&r);         reuse::prime(rd, pr); rec.s.clear(); rc = Potassco::readProgram(is, rd, &onError); }
+			}
+			else if (mode == 0) { rc = Potassco::readAspif(is, r, &onError); }
 			else if (mode == 1) { rc = Potassco::readSmodels(is, r, &onError, smOpts(opts)); }
 			else if (mode == 2) { Potassco::AspifTextInput ti(&r); rc = Potassco::readProgram(is, ti, &onError); }
 			else if (mode == 3) { Potassco::SmodelsOutput w(os, (opts & 1) != 0, 0); Potassco::SmodelsConvert cv(w, (opts & 1) != 0); rc = Potassco::readAspif(is, cv, &onError); }
